@@ -86,6 +86,21 @@ impl Sym {
         };
     }
 
+    #[cfg(qvnt_verif)]
+    pub fn verif_q_reg(&self) -> &QReg {
+        &self.q_reg
+    }
+
+    #[cfg(qvnt_verif)]
+    pub fn verif_q_reg_mut(&mut self) -> &mut QReg {
+        &mut self.q_reg
+    }
+
+    #[cfg(qvnt_verif)]
+    pub fn verif_q_ops(&self) -> &ExtOp {
+        &self.q_ops
+    }
+
     pub fn get_class(&self) -> CReg {
         self.c_reg.clone()
     }
